@@ -328,9 +328,14 @@ func FilterPMTPacketsToPids(packets []*packet.Packet, pids []int) ([]*packet.Pac
 
 	pmtPid := packet.Pid(packets[0])
 	var missingPids []int
+	considered := 0 // requested PIDs other than the PAT and PMT PIDs
 	for _, pid := range pids {
 		// Ignore PAT and PMT PIDS if they are included.
-		if !unfilteredPMT.PIDExists(pid) && pid != PatPid && pid != pmtPid {
+		if pid == PatPid || pid == pmtPid {
+			continue
+		}
+		considered++
+		if !unfilteredPMT.PIDExists(pid) {
 			missingPids = append(missingPids, pid)
 		}
 	}
@@ -342,7 +347,7 @@ func FilterPMTPacketsToPids(packets []*packet.Packet, pids []int) ([]*packet.Pac
 	}
 
 	// Return nil packets and an error if none of the PIDs being filtered exist in the PMT.
-	if len(missingPids) == len(pids) {
+	if len(missingPids) > 0 && len(missingPids) == considered {
 		return nil, returnError
 	}
 
